@@ -36,6 +36,7 @@ from .sym import (
     znot,
 )
 from .extract import ModuleFn
+from .sym import ABSTRACT_BYTES, _ctr
 
 
 class GenVal(object):
@@ -354,7 +355,26 @@ class Lib(object):
             return [(p, p.new_obj("list", {"items": vals}))]
         p, view = self.seq_of(ex, it, p, fctx, e.lineno)
         if g.ifs:
-            raise Unsupported("filtered comprehension over a symbolic sequence")
+            # [x for x in xs if P(x)] over an abstract sequence: an abstract list of
+            # unknown length 0..len(xs) whose elements all satisfy P (order and
+            # multiplicity forgotten: sound for exception-freedom and length facts)
+            if not (isinstance(e.elt, ast.Name) and isinstance(g.target, ast.Name) and e.elt.id == g.target.id):
+                raise Unsupported("filtered comprehension with a non-identity element")
+            m = fresh("nfiltered", INT)
+            p = p.fork()
+            p.assume(z3.And(m >= 0, m <= view.n))
+            el = z3.Function("filtered!%d" % id(e), INT, BYTES)
+
+            def facts(i, g=g, el=el):
+                q = p.fork()
+                q = ex.assign(g.target, el(i), q, fctx, e.lineno)
+                out = []
+                for cnd in g.ifs:
+                    ((q2, v),) = ex.ev(cnd, q, fctx)
+                    out.append(to_z3(ex.truth(v, q2)))
+                return out
+
+            return [(p, p.new_obj("list", {"len": m, "elem": lambda i, el=el: el(i), "facts": facts}))]
 
         def elem(i, view=view):
             q = p.fork()
@@ -533,8 +553,13 @@ class Lib(object):
                 else:
                     h2 = o.f.get("on_append")
                     if h2 is None:
-                        raise Unsupported("append to an abstract list")
-                    h2(ex, p, o, args[0])
+                        n0 = o.f["len"]
+                        old = o.f["elem"]
+                        v0 = args[0]
+                        o.f["elem"] = lambda i, old=old, n0=n0, v0=v0: z3.If(i == n0, to_z3(v0), to_z3(old(i)))
+                        o.f["len"] = n0 + 1
+                    else:
+                        h2(ex, p, o, args[0])
                 p.mut += 1
                 return [(p, None)]
             if name == "pop" and "items" in o.f:
@@ -545,6 +570,17 @@ class Lib(object):
                     raise DeadPath()
                 idx = args[0] if args else -1
                 v = o.f["items"].pop(idx)
+                p.mut += 1
+                return [(p, v)]
+            if name == "pop" and "len" in o.f:
+                p = p.fork()
+                o = p.obj(recv)
+                n0 = o.f["len"]
+                ex.oblige(p, "pop-from-nonempty", n0 >= 1, ln, "safety")
+                if args and args[0] != -1:
+                    raise Unsupported("pop at a position of an abstract list")
+                v = o.f["elem"](n0 - 1)
+                o.f["len"] = n0 - 1
                 p.mut += 1
                 return [(p, v)]
             if name == "reverse" and "items" in o.f:
@@ -625,7 +661,23 @@ class Lib(object):
                         return [(p, bcat(*items) if items else acc)]
                 if "join" in o.f and recv == b"":
                     return [(p, o.f["join"])]
+                if "len" in o.f:
+                    return [(p, fresh("joined", BYTES))]  # abstract: contents forgotten
             raise Unsupported("join line %s" % ln)
+        isb = isinstance(recv, bytes) or (is_z3(recv) and recv.sort() == BYTES)
+        if isb and name == "split" and len(args) == 1:
+            # trusted model (A5): a non-empty list of byte strings (contents abstract)
+            n = fresh("nsplit", INT)
+            p = p.fork()
+            p.assume(n >= 1)
+            el = z3.Function("split!%d" % next(_ctr), INT, BYTES)
+            return [(p, p.new_obj("list", {"len": n, "elem": lambda i, el=el: el(i)}))]
+        if isb and name == "replace":
+            if len(args) == 3 and args[2] == 1 and not ABSTRACT_BYTES:
+                return [(p, z3.Replace(to_z3(recv), to_z3(args[0]), to_z3(args[1])))]
+            return [(p, fresh("replaced", BYTES))]
+        if isinstance(recv, bytes) and name == "join" and isinstance(args[0], Ref) and "len" in p.obj(args[0]).f and "join" not in p.obj(args[0]).f:
+            return [(p, fresh("joined", BYTES))]
         if (isinstance(recv, bytes) or (is_z3(recv) and recv.sort() == BYTES)) and name == "startswith":
             return [(p, z3.PrefixOf(to_z3(args[0]), to_z3(recv)))]
         if isinstance(recv, str) and name == "encode":
